@@ -30,7 +30,6 @@ ASSUMPTIONS = ["float64 CPU, scf_eps 1e-11, Pulay", "fragments: neutral closed-s
 REQUIRED_MONITORS = ["parser_calls_default_cutoff", "parser_calls_finite_cutoff", "separations_judged",
                      "cut_dimers_judged", "parser_batches_judged"]
 CASE_TIMEOUT = 900.0
-BUDGET_S = {"quick": 200, "thorough": 1500}
 
 K_E = 14.399645          # e^2/(4 pi eps0) in eV A
 A0 = 0.529167
@@ -38,9 +37,11 @@ EPS = 1e-11
 ALLOW = 5.0              # factor on the largest possible leading term  (=> worst possible margin 0.2)
 L_HIGHER = 10.0          # A, relative allowance (1 + L/R) for the next multipole order
 THETA_MAX = 3.0          # e A^2, quadrupole allowance
+Q_APT = 4.0              # e, largest atomic polar tensor norm allowed
 KAPPA_Q = 1.0            # e per (V/A): charge response to a uniform field (measured 0.05 for H2O..NH3)
 FLOOR_E, FLOOR_F, FLOOR_Q, FLOOR_EMO = 2e-11, 2e-9, 2e-10, 2e-9
 TOL_CUT = 1e-9
+MECH_COLD = "far-fragments-cold-start-scf-charge-transfer-state"
 R_ALL = [8, 12, 20, 30, 50, 100, 200, 500]
 R_MIN_JUDGED = 20        # below this the multipole series about the centroids is not yet asymptotic: recorded only
 FRAGS = ["H2O", "NH3", "CH4", "HF", "CO", "CO2", "N2", "HCN", "C2H2", "C2H4", "CH2O", "CH3OH", "CH3F", "LiH", "HCl",
@@ -123,8 +124,21 @@ def _merge(frs):
     Z = [z for zs, _ in frs for z in zs]
     X = np.vstack([x for _, x in frs])
     fid = [k for k, (zs, _) in enumerate(frs) for _ in zs]
+    lid = [i for zs, _ in frs for i in range(len(zs))]
     order = sorted(range(len(Z)), key=lambda i: -Z[i])
-    return [Z[i] for i in order], X[order], np.array([fid[i] for i in order]), order
+    return [Z[i] for i in order], X[order], np.array([fid[i] for i in order]), [lid[i] for i in order]
+
+
+def _block_density(fid, lid, iso):
+    """superposition of the isolated fragment densities in the AO order of the merged system (4 AOs per atom)."""
+    N = len(fid)
+    P = np.zeros((4 * N, 4 * N))
+    for a in range(N):
+        for b in range(N):
+            if fid[a] == fid[b]:
+                Pf = iso[fid[a]]["dm"][0]
+                P[4 * a:4 * a + 4, 4 * b:4 * b + 4] = Pf[4 * lid[a]:4 * lid[a] + 4, 4 * lid[b]:4 * lid[b] + 4]
+    return P[None, :, :]
 
 
 def _qn(z):
@@ -203,7 +217,7 @@ def _run_frag(case):
     sett = _settings(method)
     cells.add("%s/%d-fragments" % (method, nfr))
     # --- isolated fragments at the smallest separation: eligibility + independent dipoles -------------------
-    mus = []
+    mus, kos, rhomax = [], [], 0.0
     for (Z, X) in placed[0]:
         o2 = run.single_point(Z, X, sett, keep=True)
         o1 = run.single_point(Z, X, _settings(method, conv=(1,)))
@@ -218,8 +232,15 @@ def _run_frag(case):
         rep = o2.get("dipole")
         if rep is not None:
             # auxiliary evidence only: agreement of the independent dipole with the reported one (a.u. -> e A)
-            upd("aux_dipole_indep_vs_reported", np.abs(mu - rep[0] * A0).max(), 1e-6)
+            upd("aux_dipole_indep_vs_reported", np.abs(mu - rep[0] * A0).max(), 1e-3 * max(0.05, float(np.linalg.norm(mu))))
         mus.append(float(np.linalg.norm(mu)))
+        # Klopman-Ohno monopole damping: k/sqrt(R^2+(rho_A+rho_B)^2) = k/R - k (rho_A+rho_B)^2/(2R^3) + ...; summed over the
+        # atom pairs of two neutral fragments the R^-3 part is  -k (sum_A q_A rho_A)(sum_B q_B rho_B)/R^3  (isotropic):
+        # a genuine R^-3 term of the NDDO model on top of the dipole-dipole one.  rho0 = e^2/(2 g_ss) in A.
+        gss = o2["_mol"].parameters["g_ss"].detach().numpy()
+        rho0 = K_E / (2.0 * gss)
+        kos.append(abs(float((o2["q"][0][:len(Z)] * rho0).sum())))
+        rhomax = max(rhomax, float(rho0.max()))
     homo = []
     obs_rows = []
     njudged = 0
@@ -228,7 +249,7 @@ def _run_frag(case):
             iso = []
             for (Z, X) in cur:
                 iso.append(run.single_point(Z, X, sett))
-            Z, X, fid, order = _merge(cur)
+            Z, X, fid, lid = _merge(cur)
             calls0 = tap.calls
             ab = run.single_point(Z, X, sett)
             N = len(Z)
@@ -247,7 +268,6 @@ def _run_frag(case):
             if bool(ab["notconverged"][0]) or any(bool(o["notconverged"][0]) for o in iso):
                 cnt("separations_not_converged")
                 continue
-            dE = float(ab["Etot"][0]) - sum(float(o["Etot"][0]) for o in iso)
             # effective distance: smallest inter-fragment atom distance
             Dm = np.linalg.norm(X[:, None, :] - X[None, :, :], axis=-1)
             inter = fid[:, None] != fid[None, :]
@@ -256,60 +276,85 @@ def _run_frag(case):
             # bounds -----------------------------------------------------------------------------------------
             sum_mumu = sum(mus[a] * mus[b] for a in range(nfr) for b in range(a + 1, nfr))
             npair = nfr * (nfr - 1) // 2
-            bE = ALLOW * (2 * K_E * sum_mumu * hi / Reff ** 3 + npair * 6 * K_E * THETA_MAX ** 2 / Reff ** 5
+            sum_ko = sum(kos[a] * kos[b] for a in range(nfr) for b in range(a + 1, nfr))
+            bE = ALLOW * ((2 * K_E * sum_mumu + K_E * sum_ko) * hi / Reff ** 3 + npair * 6 * K_E * THETA_MAX ** 2 / Reff ** 5
                           + npair * 3 * K_E * max(mus) * THETA_MAX / Reff ** 4) + FLOOR_E
-            dF = dq = 0.0
-            bF = bq = 0.0
+            pot = K_E * max(mus) * hi / Reff ** 2 + K_E * (THETA_MAX + rhomax * max(kos)) / Reff ** 3
+            bemo = ALLOW * (nfr - 1) * pot + FLOOR_EMO
+            bFs, bqs = [], []
             for f in range(nfr):
-                sel = fid == f
-                dF_f = np.abs(ab["force"][0][sel] - iso[f]["force"][0]).max()
-                dq_f = np.abs(ab["q"][0][sel] - iso[f]["q"][0]).max()
                 mu_o = sum(mus[o] for o in range(nfr) if o != f)
                 field = 2 * K_E * mu_o * hi / Reff ** 3 + (nfr - 1) * 3 * K_E * THETA_MAX / Reff ** 4     # V/A
-                # per-atom force <= |q_atom| * field (|q| <= 1 e allowed) + hybridisation dipole (1 e A) * field gradient
-                bF_f = ALLOW * (field * (1.0 + 3.0 / Reff)) + FLOOR_F
-                bq_f = ALLOW * KAPPA_Q * field + FLOOR_Q
-                if dF_f / bF_f > (dF / bF if bF else -1):
-                    dF, bF = dF_f, bF_f
-                if dq_f / bq_f > (dq / bq if bq else -1):
-                    dq, bq = dq_f, bq_f
-            eu = np.sort(np.concatenate([o["e_mo"][0][:int(o["norb"][0])] for o in iso]))
-            ed = np.sort(ab["e_mo"][0][:len(eu)])
-            de = float(np.abs(eu - ed).max())
-            pot = K_E * max(mus) * hi / Reff ** 2 + K_E * THETA_MAX / Reff ** 3
-            bemo = ALLOW * (nfr - 1) * pot + FLOOR_EMO
-            row = {"R": R, "Reff": Reff, "dE": dE, "dE_R3": dE * R ** 3, "bound_dE": bE, "dF": float(dF), "dq": float(dq), "de_mo": de}
+                # force change of atom i in a field E: (d mu / d x_i) E, i.e. the atomic polar tensor (|APT| <= Q_APT e allowed;
+                # semiempirical values reach 2-3 e for the central atoms of CO2 / N2O), plus 3 A / R for the field gradient
+                ko_field = 3 * K_E * rhomax * sum(kos[o] for o in range(nfr) if o != f) / Reff ** 4
+                field += ko_field
+                bFs.append(ALLOW * Q_APT * (field * (1.0 + 3.0 / Reff)) + FLOOR_F)
+                bqs.append(ALLOW * KAPPA_Q * field + FLOOR_Q)
+
+            def deviations(out):
+                """-> dict name -> (value, bound) of the worst ratio per quantity"""
+                d = {"dE": (abs(float(out["Etot"][0]) - sum(float(o["Etot"][0]) for o in iso)), bE)}
+                wF = wq = (0.0, 1.0)
+                for f in range(nfr):
+                    sel = fid == f
+                    dF_f = float(np.abs(out["force"][0][sel] - iso[f]["force"][0]).max())
+                    dq_f = float(np.abs(out["q"][0][sel] - iso[f]["q"][0]).max())
+                    if dF_f / bFs[f] >= wF[0] / wF[1]:
+                        wF = (dF_f, bFs[f])
+                    if dq_f / bqs[f] >= wq[0] / wq[1]:
+                        wq = (dq_f, bqs[f])
+                d["dF"], d["dq"] = wF, wq
+                eu = np.sort(np.concatenate([o["e_mo"][0][:int(o["norb"][0])] for o in iso]))
+                ed = np.sort(out["e_mo"][0][:len(eu)])
+                d["de_mo"] = (float(np.abs(eu - ed).max()), bemo)
+                return d
+
+            dev = deviations(ab)
+            dE = float(ab["Etot"][0]) - sum(float(o["Etot"][0]) for o in iso)
+            row = {"R": R, "Reff": Reff, "dE": dE, "dE_R3": dE * R ** 3, "bound_dE": bE, "dF": dev["dF"][0], "dq": dev["dq"][0],
+                   "de_mo": dev["de_mo"][0]}
             obs_rows.append(row)
             cells.add("R=%d" % R)
             if R < R_MIN_JUDGED:
                 cnt("separations_recorded_only")
                 continue
             cnt("separations_judged")
-            njudged += 1 if R >= 50 else 0
-            bad = {}
-            if upd("dE_vs_leading_multipole", abs(dE), bE):
-                bad["dE"] = [dE, bE]
-            if upd("dF_vs_dipole_field", dF, bF):
-                bad["dF"] = [float(dF), bF]
-            if upd("dq_vs_dipole_field", dq, bq):
-                bad["dq"] = [float(dq), bq]
-            if upd("de_mo_vs_dipole_potential", de, bemo):
-                bad["de_mo"] = [de, bemo]
+            names = {"dE": "dE_vs_leading_multipole", "dF": "dF_vs_dipole_field", "dq": "dq_vs_dipole_field",
+                     "de_mo": "de_mo_vs_dipole_potential"}
+            bad = {k: [v, b] for k, (v, b) in dev.items() if v > b}
+            mech = None
             if bad:
-                # solver-path rescue: a different SCF stationary point of the dimer is C04's matter, not additivity
-                alt = run.single_point(Z, X, _settings(method, conv=(1,)))
-                dE_alt = float(alt["Etot"][0]) - sum(float(o["Etot"][0]) for o in iso)
-                if not bool(alt["notconverged"][0]) and abs(dE_alt) <= bE and "dE" in bad and abs(dE_alt - dE) > 1e-6:
-                    cnt("separations_solver_dependent")
-                    continue
-                viol.append({"clause": "decay-slower-than-leading-multipole", "mech": None,
-                             "detail": {"R": R, "Reff": Reff, "observed_vs_bound": bad, "dipoles_eA": mus, "case": case}})
+                # same dimer started from the superposition of the isolated fragment densities: decides whether the
+                # Hamiltonian is non-additive (mech None) or the cold-start SCF landed on another stationary state
+                warm = run.single_point(Z, X, sett, P0=_block_density(fid, lid, iso))
+                cnt("warm_start_reruns")
+                if not bool(warm["notconverged"][0]):
+                    wdev = deviations(warm)
+                    if all(v <= b for v, b in wdev.values()):
+                        mech = MECH_COLD
+                        dev_for_margin = wdev
+                    else:
+                        dev_for_margin = dev
+                else:
+                    dev_for_margin = dev
+                qfrag = [float(ab["q"][0][fid == f].sum()) for f in range(nfr)]
+                viol.append({"clause": "far-fragments-not-additive", "mech": mech,
+                             "detail": {"R": R, "Reff": Reff, "observed_vs_bound": bad, "dipoles_eA": mus, "ko_pseudo_dipoles_eA": kos,
+                                        "fragment_net_charges_in_the_returned_state": qfrag,
+                                        "warm_start_holds": mech is not None, "case": case}})
+            else:
+                dev_for_margin = dev
+            if not (bad and mech is None):
+                njudged += 1 if R >= 50 else 0
+            for k, (v, b) in dev_for_margin.items():
+                upd(names[k], v, b)
         # ---- finite cutoffs ------------------------------------------------------------------------------------
         for c in case["cutoffs"]:
             settc = _settings(method, cutoff=c)
             done_energy = 0
             for R, cur in zip(Rs, placed):
-                Z, X, fid, order = _merge(cur)
+                Z, X, fid, lid = _merge(cur)
                 Dm = np.linalg.norm(X[:, None, :] - X[None, :, :], axis=-1)
                 inter = fid[:, None] != fid[None, :]
                 if np.abs(Dm[np.triu_indices(len(Z), 1)] - c).min() < 1e-6:
@@ -325,9 +370,17 @@ def _run_frag(case):
                         cnt("cut_dimers_judged")
                         done_energy += 1
                         cells.add("cutoff=%g/all-inter-pairs-cut" % c)
-                        if upd("dE_all_inter_pairs_cut", abs(dE), TOL_CUT):
-                            viol.append({"clause": "energy-not-additive-with-all-inter-fragment-pairs-cut", "mech": None,
-                                         "detail": {"R": R, "cutoff": c, "dE": dE, "case": case}})
+                        mech = None
+                        dE_m = dE
+                        if abs(dE) > TOL_CUT:
+                            warm = run.single_point(Z, X, settc, P0=_block_density(fid, lid, iso))
+                            cnt("warm_start_reruns")
+                            dE_w = float(warm["Etot"][0]) - sum(float(o["Etot"][0]) for o in iso)
+                            if not bool(warm["notconverged"][0]) and abs(dE_w) <= TOL_CUT:
+                                mech, dE_m = MECH_COLD, dE_w
+                            viol.append({"clause": "energy-not-additive-with-all-inter-fragment-pairs-cut", "mech": mech,
+                                         "detail": {"R": R, "cutoff": c, "dE": dE, "dE_warm_start": dE_w, "case": case}})
+                        upd("dE_all_inter_pairs_cut", abs(dE_m), TOL_CUT)
                     # parser output of the dimer construction (first Parser call after calls0 is the dimer's)
                     with run.quiet():
                         run.build(Z, X, settc)
@@ -351,7 +404,7 @@ def _run_frag(case):
                                                 "pairs_expected": len(ref["pairs"]), "case": case}})
     nontrivial = njudged >= 4
     return {"nontrivial": nontrivial, "violations": viol, "margins": margins, "monitors": mon, "cells": sorted(cells),
-            "obs": {"fragments": case["frags"], "dipoles_eA": mus, "rows": obs_rows[:8], "worst": margins}}
+            "obs": {"fragments": case["frags"], "dipoles_eA": mus, "ko_pseudo_dipoles_eA": kos, "rows": obs_rows[:8], "worst": margins}}
 
 
 def _run_parser(case):
@@ -361,7 +414,7 @@ def _run_parser(case):
     mols = []
     for s in case["systems"]:
         placed = _place(s["frags"], s["seed"], [s["R"]])[0] if len(s["frags"]) <= 3 else None
-        Z, X, fid, order = _merge(placed)
+        Z, X, fid, lid = _merge(placed)
         mols.append((Z, X))
     g = np.random.default_rng(case["seed"])
     S, C = gen.pad_batch(mols, extra_pad=case["pad"], pad_value=case["padval"], g=g)
@@ -403,8 +456,9 @@ def run_case(case):
 
 
 def summarize(cases, results, report):
-    return {"bounds": {"dE": "5*(2k sum mu_a mu_b (1+10/Reff)/Reff^3 + 6k Theta^2/Reff^5 + 3k mu Theta/Reff^4) + 2e-11 eV",
-                       "dF": "5*field*(1+3/Reff) + 2e-9, field = 2k mu_other (1+10/Reff)/Reff^3 + 3k Theta/Reff^4",
+    return {"bounds": {"dE": "5*((2k sum mu_a mu_b + k sum S_a S_b) (1+10/Reff)/Reff^3 + 6k Theta^2/Reff^5 + 3k mu Theta/Reff^4) + 2e-11 eV",
+                       "dF": "5*Q_APT*field*(1+3/Reff) + 2e-9, field = 2k mu_other (1+10/Reff)/Reff^3 + 3k (Theta + rho S)/Reff^4",
+                       "KO": "S_F = |sum_A q_A rho0_A|, rho0 = e^2/(2 g_ss): the dE bound carries k S_a S_b (1+10/Reff)/Reff^3 in addition",
                        "dq": "5*kappa_q*field + 2e-10", "de_mo": "5*(k mu (1+10/Reff)/Reff^2 + k Theta/Reff^3) + 2e-9",
                        "k": K_E, "Theta_max": THETA_MAX, "kappa_q": KAPPA_Q, "judged_from_R": R_MIN_JUDGED},
             "case_kinds": {k: sum(1 for c in cases if c.get("kind") == k) for k in ("frag", "parser")}}
